@@ -206,8 +206,15 @@ func runC06(r *Run) {
 		prev = est
 		return true
 	}
+	negPrefix := t.Chance(10, "negative-rtt-in-prefix") // a clock that stepped back during the preceding history
 	for i := 0; i < nPrefix; i++ {
-		if !feed(i, g.next(prev), "prefix") {
+		sm := g.next(prev)
+		if negPrefix && t.Chance(3, "negative-prefix-sample") {
+			sm.RTT = -int64(1 + t.Intn(5000000, "negative-rtt"))
+			r.Fault("F-clock:negative-rtt")
+			r.Probe("prefix_with_negative_rtt")
+		}
+		if !feed(i, sm, "prefix") {
 			return
 		}
 	}
